@@ -7,6 +7,7 @@ import (
 	"strconv"
 	"strings"
 
+	"github.com/runreveal/pql"
 	"github.com/runreveal/pql/parser"
 )
 
@@ -149,4 +150,18 @@ func init() {
 		return fmtParse(parser.Parse(unhex(c.Fields[0])))
 	}
 	moreOps["PARSEV"] = moreOps["PARSE"]
+}
+
+func init() {
+	// LINECOL src pos | parserLine parserCol pqlLine pqlCol   (both copies of linecol)
+	moreOps["LINECOL"] = func(c Case) string {
+		src := unhex(c.Fields[0])
+		pos, _ := strconv.Atoi(c.Fields[1])
+		if pos < 0 || pos > len(src) {
+			return "OUT-OF-RANGE"
+		}
+		l1, c1 := parser.VerifLinecol(src, pos)
+		l2, c2 := pql.VerifLinecol(src, pos)
+		return fmt.Sprintf("%d %d %d %d", l1, c1, l2, c2)
+	}
 }
